@@ -273,6 +273,14 @@ def known_for(pid: str) -> list[dict]:
     return [f for f in load_known() if f.get("property") == pid and f.get("kind") == "finding"]
 
 
+def load_corpus(pid: str) -> list:
+    """Minimised cases of past failures (from seeded changes); they run before the generated ones."""
+    p = CORPUS / f"{pid}.jsonl"
+    if not p.exists():
+        return []
+    return [json.loads(l) for l in p.read_text().splitlines() if l.strip()]
+
+
 def write_replay(ctx: Ctx, name: str, data: dict) -> Path:
     REPLAYS.mkdir(exist_ok=True)
     path = REPLAYS / f"{ctx.pid}_{name}_seed{ctx.seed}.json"
